@@ -36,8 +36,9 @@ def run(ctx):
     ctx.rule("R2.4", "every metadata key the emulator requires (a missing value makes the reader fail) is written "
              "by libovni on every path of thread init/free with a compatible JSON type; optional reader keys "
              "are written by some libovni path")
-    ctx.rule("R2.5", "the emulator advances over a stream with ovni_ev_size, the single definition the runtime "
-             "uses to lay events out")
+    ctx.rule("R2.5", "for every event stream_step accepts, the distance it advances equals the size the "
+             "runtime's ovni_ev_size (single definition) gives for the same bytes, so reader and writer tile the "
+             "stream identically")
 
     rt = RtExplorer(ctx, cap)
     ex = rt.ex
@@ -170,9 +171,46 @@ def run(ctx):
     ctx.check(len(defs) == 1 and defs[0].file == OV, "R2.5", "ovni_ev_size:single-definition", OV,
               "ovni_ev_size is defined in %s" % [d.file for d in defs])
     ss = prog.fn("stream_step", "src/emu/stream.c")
-    uses = ss.all_calls_syntactic("ovni_ev_size")
-    ctx.check(bool(uses), "R2.5", "stream_step:uses-ovni_ev_size", ss.loc(),
-              "stream_step no longer advances by ovni_ev_size")
+    # the reader's step equals the writer's event size: evaluated on symbolic event bytes
+    from ovsa.absint import to_lin
+    inl = {f.name for f in prog.fns_in("src/emu/stream.c")} | {"ovni_ev_size", "ovni_payload_size",
+                                                              "get_jumbo_payload_size", "ovni_ev_get_clock"}
+    ex5 = absint.Explorer(prog, effects=eff, inline=lambda n, d: n in inl and d.name != "stream_step",
+                          loop_bound=2, max_depth=5, symbolic_roots=("BUF",))
+    S = ex5.sym("size", 8, 2 ** 31 - 1)
+    off = ex5.sym("off", 8, 2 ** 31 - 1)
+    store = {("ST", F("stream", "active")): INT(1), ("ST", F("stream", "size")): S,
+             ("ST", F("stream", "offset")): off, ("ST", F("stream", "buf")): PTR("BUF", (0,)),
+             ("ST", F("stream", "cur_ev")): NULL, ("ST", F("stream", "unsorted")): INT(0)}
+    outs1 = [o for o in ex5.run(ss, [PTR("ST")], store, cons=(((("off", 1), ("size", -1)), -1),))
+             if o.kind == "ret" and o.ret == INT(0)]
+    evs = prog.fn("ovni_ev_size", OV)
+    npairs, bad = 0, []
+    for o1 in outs1:
+        cur = o1.store.get(("ST", F("stream", "cur_ev")))
+        off1 = o1.store.get(("ST", F("stream", "offset")))
+        for osz in ex5.run(evs, [cur], o1.store, cons=o1.cons):
+            if osz.kind != "ret" or osz.ret is None or to_lin(osz.ret) is None:
+                bad.append("the writer's size function gives %s on an event stream_step accepted" % (osz.ret,))
+                continue
+            for o2 in ex5.run(ss, [PTR("ST")], osz.store, cons=osz.cons):
+                if o2.kind != "ret":
+                    continue
+                new = o2.store.get(("ST", F("stream", "offset")))
+                ln, l1, le = to_lin(new), to_lin(off1), to_lin(osz.ret)
+                if ln is None:
+                    bad.append("the step is not a function of the event bytes")
+                    continue
+                t = dict(ln[1])
+                for k, c in l1[1].items():
+                    t[k] = t.get(k, 0) - c
+                for k, c in le[1].items():
+                    t[k] = t.get(k, 0) - c
+                npairs += 1
+                if ex5.decide_cmp(o2.cons, "==", ln[0] - l1[0] - le[0], {k: c for k, c in t.items() if c}) is not True:
+                    bad.append("stream_step advances by a different amount than ovni_ev_size gives for the same bytes")
+    ctx.check(npairs > 0 and not bad, "R2.5", "stream_step:step-equals-writer-size", ss.loc(),
+              "; ".join(sorted(set(bad))) or "nothing explored")
     # nobody in the emulator decodes the size nibble on its own
     own = []
     for f in prog.functions.values():
